@@ -45,6 +45,8 @@ pub struct World {
     /// power-loss outcomes of the last consumed op (distinct from the kill outcome at the same point)
     pub ploss: Vec<String>,
     pub ploss_n: usize,
+    /// referenced views (MANIFEST + listed segments + pointed snapshot) of the power-loss directories of the current op
+    pub plossv: Vec<String>,
 }
 
 fn is_wal(p: &str) -> bool {
@@ -255,6 +257,59 @@ pub fn docs_census(b: &HnswBackend) -> String {
 }
 
 impl World {
+    /// What strict recovery reads of a directory: the MANIFEST, the segments it lists, the snapshot it points to - in the
+    /// vocabulary of the model's `viewOf` (canonical file numbers).
+    pub fn view_of_dir(&self, d: &std::path::Path) -> String {
+        let Ok(data) = std::fs::read(d.join("MANIFEST")) else { return "none".into() };
+        let Ok(m) = serde_json::from_slice::<Manifest>(&data) else { return "unparsable".into() };
+        let segs: Vec<String> = m
+            .wal_segments
+            .iter()
+            .map(|name| {
+                let n = self.canon_opt(name);
+                let desc = match WalReader::open(d.join(name)) {
+                    Ok(mut r) => match r.read_all() {
+                        Ok(es) => es
+                            .iter()
+                            .map(|en| {
+                                format!(
+                                    "{}{}{}",
+                                    en.seq_no,
+                                    match en.op {
+                                        WalOp::Insert => "i",
+                                        WalOp::Delete => "d",
+                                        WalOp::UpdateMetadata => "u",
+                                    },
+                                    en.doc_id
+                                )
+                            })
+                            .collect::<Vec<_>>()
+                            .join("."),
+                        Err(_) => "unreadable".into(),
+                    },
+                    Err(_) => "missing".into(),
+                };
+                format!("{}:{}", n, desc)
+            })
+            .collect();
+        let snap = match &m.latest_snapshot {
+            None => "-".to_string(),
+            Some(name) => match Snapshot::load(d.join(name)) {
+                Ok(sf) => format!("{}:{}.{}", self.canon_opt(name), sf.last_wal_seq, sf.documents.len()),
+                Err(_) => format!("{}:missing", self.canon_opt(name)),
+            },
+        };
+        format!("M({})|{}|{}", self.show_manifest_bytes(&data), segs.join(";"), snap)
+    }
+
+    /// recover_at + the referenced view of the directory before recovery touched it
+    pub fn recover_and_view_at(&mut self, shadow: &BTreeMap<String, Vec<u8>>) -> (String, String) {
+        let d = self.root.join("crash");
+        materialise(shadow, &d);
+        let v = self.view_of_dir(&d);
+        (self.recover_at(shadow), v)
+    }
+
     pub fn recover_at(&mut self, shadow: &BTreeMap<String, Vec<u8>>) -> String {
         self.scratch_n += 1;
         let d = self.root.join("crash");
@@ -527,10 +582,13 @@ impl World {
                         if st == sh {
                             continue;
                         }
-                        let po = self.recover_at(&st);
+                        let (po, pv) = self.recover_and_view_at(&st);
                         self.ploss_n += 1;
                         if po != o && !self.ploss.contains(&po) {
                             self.ploss.push(po);
+                        }
+                        if !self.plossv.contains(&pv) {
+                            self.plossv.push(pv);
                         }
                     }
                 }
@@ -547,9 +605,19 @@ impl World {
 
     fn finish(&mut self, out: String) -> String {
         self.ploss.clear();
+        self.plossv.clear();
         self.ploss_n = 0;
         let (acts, crashes) = self.consume(true);
-        let pl = if self.cfg.ploss { format!(" ploss={} plossn={}", if self.ploss.is_empty() { "-".to_string() } else { self.ploss.join("#") }, self.ploss_n) } else { String::new() };
+        let pl = if self.cfg.ploss {
+            format!(
+                " ploss={} plossn={} plossv={}",
+                if self.ploss.is_empty() { "-".to_string() } else { self.ploss.join("#") },
+                self.ploss_n,
+                if self.plossv.is_empty() { "-".to_string() } else { self.plossv.join("#") }
+            )
+        } else {
+            String::new()
+        };
         format!(
             "{} acts={} crash={}{}",
             out,
@@ -716,6 +784,7 @@ pub fn step(w: &mut Option<World>, line: &str, scratch_root: &Path, case_no: &mu
             pl: PowerLoss::default(),
             ploss: vec![],
             ploss_n: 0,
+            plossv: vec![],
         };
         world.wall = wall.is_some();
         let out = match b {
